@@ -16,6 +16,9 @@ def main():
     tier = "quick"
     if "--tier" in args:
         i = args.index("--tier"); tier = args[i + 1]; del args[i:i + 2]
+    do_replay = "--replay" in args
+    if do_replay:
+        args.remove("--replay")
     mut, ids = args[0], args[1:]
     scratch = tempfile.mkdtemp(prefix="pvmut_", dir="/var/tmp")
     try:
@@ -42,6 +45,15 @@ def main():
                                                "CAUGHT" if r.returncode == 1 else "MISSED"))
             for l in viol[:6]:
                 print("   " + l[:260])
+            if do_replay and r.returncode == 1:
+                # every witness file the check wrote must reproduce the violation when replayed on the broken tree
+                files = [l.split("replay=")[1].strip() for l in r.stdout.splitlines() if l.startswith("VIOLATION") and "replay=" in l]
+                for fpath in files[:2]:
+                    rr = subprocess.run([os.path.join(ROOT, "check"), pid, "--replay", fpath], env=env, capture_output=True, text=True)
+                    print("   replay %s: exit=%d %s" % (os.path.basename(fpath)[:60], rr.returncode,
+                                                      "REPRODUCED" if rr.returncode == 1 else "NOT REPRODUCED"))
+                    if rr.returncode != 1:
+                        print("      " + "\n      ".join((rr.stdout + rr.stderr).splitlines()[-4:])[:600])
             if r.returncode != 1:
                 allc = False
                 print("   " + "\n   ".join(r.stdout.splitlines()[-3:]))
